@@ -133,6 +133,21 @@ def run(ck):
             if mv != mw:
                 disag.append(("Lmmm VmD and WasmD machines differ on a wf program", src))
 
+    # ---------- (1a') outside the model: functions with multi-word (tuple / record) parameters read in if / match arms, after the
+    # merge and across recursive calls (VM keeps them in per-frame registers, WASM spills flattened params to memory) ----------
+    for src, r in tuple_param_stream(ck, iexe, 250 if quick else 3000, 10 if quick else 24, "C01"):
+        if 'crash' in r:
+            viol.append(("harness process died while running a program with tuple/record parameters", src, {"rc": str(r['crash'])})); continue
+        if r.get("typecheck") != "ok":
+            bump("tuple_param_rejected"); continue
+        a, b = backend_summary(r.get('vm')), backend_summary(r.get('wasm'))
+        if a == b:
+            bump("tuple_param_vm_equals_wasm")
+            if a and a[0] == 'ok':
+                distinct.add(src)
+        else:
+            viol.append(("VM and WASM differ on a program with tuple/record parameters", src, {"vm": str(a)[:300], "wasm": str(b)[:300], "n": 10 if quick else 24}))
+
     # ---------- (1b) scheduler programs whose tasks do NOT commute: same-time tasks, chains, tasks scheduled by tasks ----------
     srng = ck.rng.fork("sched")
     sreqs = []
